@@ -24,3 +24,8 @@ func VerifInstanceCount() int {
 
 // VerifContext returns the server-type context of i.
 func (i *Instance) VerifContext() Context { return i.context }
+
+// VerifPurgeEventHooks empties the process-global event hook registry (what a
+// fresh process starts with), so that hooks registered by one configuration
+// under test do not run during the next one.
+func VerifPurgeEventHooks() { purgeEventHooks() }
